@@ -164,3 +164,15 @@ Definition w_split_code (k : wcase) : Z :=
   let nb := map norm_bond (w_added k) in
   (if fst c then 1 else 0) + (if fst f then 2 else 0) + (if snd c || snd f then 4 else 0) +
   (if walk_ok (length (w_xyz k)) nb (pfb_walk (length (w_xyz k)) nb) then 0 else 8).
+
+(* Topology.find_molecules as reported by the implementation (atom lists ascending, molecules in order) against
+   Model.find_molecules on the same bonds *)
+Fixpoint ninsert (x : nat) (l : list nat) : list nat :=
+  match l with [] => [x] | y :: r => if Nat.leb x y then x :: l else y :: ninsert x r end.
+Definition nsort (l : list nat) : list nat := fold_right ninsert [] l.
+Fixpoint nlist_eqb (a b : list nat) : bool :=
+  match a, b with [], [] => true | x :: a', y :: b' => Nat.eqb x y && nlist_eqb a' b' | _, _ => false end.
+Fixpoint mols_eqb (a b : list (list nat)) : bool :=
+  match a, b with [], [] => true | x :: a', y :: b' => nlist_eqb (nsort x) y && mols_eqb a' b' | _, _ => false end.
+Definition w_mols_ok (k : wcase) (mols : list (list nat)) : bool :=
+  mols_eqb (find_molecules (length (w_xyz k)) (map norm_bond (w_added k))) mols.
